@@ -133,6 +133,11 @@ func (r *upcastRegistry) apply(data json.RawMessage, eventType string) (json.Raw
 				upcaster.FromType, upcaster.ToType, err)
 		}
 
+		// An upcaster may return a type other than its declared target
+		if appliedTypes[newType] {
+			return data, eventType, fmt.Errorf("eventbus: upcast loop detected")
+		}
+
 		currentData = newData
 		currentType = newType
 	}
